@@ -494,7 +494,22 @@ func (s *bitcoinStream) genDepositTxs(r *tr.Rng) {
 		if len(outs) == 1 && version == 1 {
 			nin = 2
 		}
+		// two deposits in one bitcoin transaction: outputs of the same txid credited separately (the credited set is keyed by
+		// (txid, output), not by txid)
+		second := -1
+		var evm2 []byte
+		if version == 0 && r.Chance(15) {
+			evm2 = s.evms[r.Intn(len(s.evms))]
+			if sc2, _ := s.depositOutputs(key, 0, evm2, p.DepositMagicPrefix); sc2 != nil {
+				second = len(outs)
+				outs = append(outs, wire.NewTxOut(int64(p.MinDepositAmount+uint64(r.Intn(90000))), sc2))
+				cls += "/two-deposit-outputs"
+			}
+		}
 		tx := mkTx(r, outs, nin)
+		if second >= 0 {
+			depCands = append(depCands, &depCand{tx: tx, version: 0, outIdx: uint32(second), evm: evm2, key: key, cls: cls + "/second"})
+		}
 		switch r.Intn(40) {
 		case 0: // the block commits to bytes that are a transaction plus one byte: only the parser's "no trailing bytes" rule refuses it
 			tx.raw = append(append([]byte{}, tx.raw...), byte(r.Intn(2)))
@@ -831,6 +846,9 @@ func (s *bitcoinStream) payout(r *tr.Rng, ids []uint64, cls *string) (*btcTx, ui
 				sc = w.addr.script
 			}
 			amt = w.amount - uint64(r.Intn(int(min64(w.amount, 500))))
+			if r.Chance(30) {
+				amt = w.amount // pays exactly what was requested (boundary of "no more than the requested amount")
+			}
 			if w.price < minPrice {
 				minPrice = w.price
 			}
@@ -865,6 +883,7 @@ func (s *bitcoinStream) payout(r *tr.Rng, ids []uint64, cls *string) (*btcTx, ui
 		*cls += "/two-extra-outputs"
 	}
 	tx := mkTx(r, outs, 1+r.Intn(2))
+	defectiveBytes(r, tx, cls)
 	if minPrice == 1<<62 {
 		minPrice = 1
 	}
@@ -890,6 +909,22 @@ func (s *bitcoinStream) payout(r *tr.Rng, ids []uint64, cls *string) (*btcTx, ui
 		}
 	}
 	return tx, fee
+}
+
+// defectiveBytes: now and then the voted bytes are a transaction followed by one more byte, or a transaction whose
+// lock time is cut short (only the parser's "no trailing bytes" / error rule refuses them; the vote is over these bytes)
+func defectiveBytes(r *tr.Rng, tx *btcTx, cls *string) {
+	switch r.Intn(28) {
+	case 0:
+		tx.raw = append(append([]byte{}, tx.raw...), byte(r.Intn(2)))
+		*cls += "/tx-trailing-byte"
+	case 1:
+		tx.raw = append([]byte{}, tx.raw[:len(tx.raw)-1-r.Intn(3)]...)
+		*cls += "/tx-truncated"
+	default:
+		return
+	}
+	tx.txid = goatcrypto.DoubleSHA256Sum(tx.raw)
 }
 
 func w0amount(w *wd) uint64 {
@@ -1143,6 +1178,7 @@ func (s *bitcoinStream) genConsolidate(r *tr.Rng) {
 		cls += "/to-stranger"
 	}
 	tx := mkTx(r, outs, 2+r.Intn(3))
+	defectiveBytes(r, tx, &cls)
 	vcls, args := s.validVote(r, "Bitcoin/NewConsolidation", goatcrypto.SHA256Sum(tx.raw))
 	s.push(tr.NewOp(cls+vcls, "tx.consolidate", append(args, "tx", tr.Hex(tx.raw))...))
 }
